@@ -31,6 +31,8 @@
 //	          post-balance check must catch it)
 //	evnokey   SupportedKey reports false for this account's public key
 //
+// and the creation of a contract whose NAME is "evrevert" reverts.
+//
 // The ledger decodes the ABI calls the keeper makes (contract creation through
 // the TokenProxy constructor, balanceOf, mint, burn) plus name, symbol,
 // decimals, totalSupply, transfer and swapToNative (which burns the caller's
@@ -351,6 +353,11 @@ func (l *Ledger) create(ctx sdk.Context, msg core.Message) (*tokentypes.Result, 
 	name, _ := iargs[0].(string)
 	symbol, _ := iargs[1].(string)
 	scale, _ := iargs[2].(uint8)
+	if name == QuirkRevert {
+		// failure injection: the creation of a contract NAMED evrevert reverts
+		// (DeployERC20 must bind nothing)
+		return reverted("creation reverted (quirk)")
+	}
 	addr := crypto.CreateAddress(msg.From(), msg.Nonce())
 	if _, exists := l.getMeta(ctx, addr); exists {
 		return reverted("contract address collision")
